@@ -455,7 +455,7 @@ def run_c18(ctx):
         cpus, gmp = cfgs[k]
         root = os.path.join(ctx.scratch, "k%d" % k, "r")
         env = {"GOMAXPROCS": gmp} if gmp else None
-        sc = scen if k == 0 else [dict(s, trace=False) for s in scen]
+        sc = [dict(s, trace=(len(s["list"]) <= 5)) for s in scen]
         out = join(sc, drive(ctx, driver, root, sc, taskset=cpus, env=env), k, "taskset=%s gomaxprocs=%s" % (cpus, gmp), cpus, env)
         if k in (0, 2):
             out += join(bigscen, drive(ctx, driver, root, bigscen, taskset=cpus, env=env, ), k, "big taskset=%s" % cpus, cpus, env)
